@@ -255,6 +255,33 @@ def run(ctx):
     callers9 = set(o for o, b_, bi in call_sites(prog, WRE + 'launch_task') if not is_test_util(o))
     ctx.ob('R05.9', 'launch_task|callers', callers9 == {WRE + 'try_start_task'}, f'launch_task is called only by try_start_task (observed {sorted(x.split("::")[-1] for x in callers9)})', None)
 
+    # ---- R05.10 the redirect names the worker that holds the reservation
+    ctx.rule('R05.10', 'create_task_mapping: the redirect recorded for a task that is still being retracted names the worker on which insert_sn_task just reserved the resources (the loop target), never the worker carried by the Retracting state (the source): on_retract_response assigns the task to the recorded worker')
+    ctm10 = prog.body(T + 'scheduler::mapping::create_task_mapping')
+    insn = ctm10.call_blocks(WORKER + 'insert_sn_task')
+    gwm = [bi for bi in ctm10.call_blocks({WORKERMAP + 'get_worker_mut'})]
+    rins = [bi for bi, t, c in ctm10.calls() if bi in ctm10.reachable() and (c or '').endswith(('HashMap::insert', 'Map::insert')) and 'redirects' in local_field_sources(ctm10, op_local(t['args'][0]), through_mutation=False)]
+    ctx.require(insn and rins, 'R05.10: insert_sn_task / redirects.insert in create_task_mapping')
+    # the id the reservation was made on: the key argument of the get_worker_mut whose result receives insert_sn_task
+    tgt_src = set()
+    for bi in insn:
+        recv = op_local(ctm10.term[bi]['args'][0])
+        for g in gwm:
+            if recv is not None and ctm10.term[g]['d'][0] in ctm10.derived_from(recv, through_mutation=False):
+                k = op_local(ctm10.term[g]['args'][1])
+                if k is not None:
+                    tgt_src |= {x for x in ctm10.derived_from(k, through_mutation=False) if 'WorkerId' in ctm10.locals[x][0]}
+    for bi in rins:
+        vl = op_local(ctm10.term[bi]['args'][2])
+        first = None
+        sd = ctm10.single_def(vl) if vl is not None else None
+        if sd and sd[1] == 'a' and sd[2]['rv'][0] == 'agg' and sd[2]['rv'][1][0] == 'tuple':
+            first = op_local(sd[2]['rv'][2][0])
+        fsrc = ctm10.derived_from(first, through_mutation=False) if first is not None else set()
+        from_state = any(any(f == 'state' for f, a_, v_ in place_fields(pl_)) for x in fsrc for d_ in ctm10.defs().get(x, ()) if d_[1] == 'a' for pl_ in __import__('hqrules.core', fromlist=['rv_places']).rv_places(d_[2]['rv']))
+        ctx.ob('R05.10', 'create_task_mapping|redirect target = reserved worker', first is not None and bool(tgt_src & fsrc) and not from_state,
+               'the worker id stored in redirects derives from the loop target the reservation was made on and not from the worker recorded in the task state', ctm10.loc(bi))
+
     # ---- R05.5 reactor rows + mapping rows
     n = reactor_table.run_rows(ctx, 'R05.5', 'C05')
     ctx.floor('R05.5', n, 20, 'reactor rows for C05')
